@@ -258,6 +258,60 @@ pub fn path_sets(tier: Tier) -> Vec<PathSet> {
 
 pub fn spaces(tier: Tier) -> Vec<Space<'static>> {
     let mut sp: Vec<Space> = vec![];
+    // every token string up to a length bound that jsonb's parser ACCEPTS is evaluated: the
+    // structure the parser delivered is converted to the model AST and both are run on a document
+    // set ("for every path the parser accepts": never a panic, and the items the structure denotes)
+    {
+        let toks = crate::checks::c09::TOKENS;
+        let nt = toks.len() as u64;
+        let l: u32 = if tier.thorough() { 5 } else { 4 };
+        let total: u64 = (0..=l).map(|k| nt.pow(k)).sum();
+        let docs: Arc<Vec<(RVal, Vec<u8>)>> = Arc::new(
+            [
+                RVal::arr(vec![RVal::u(1), RVal::obj(vec![("a", RVal::u(1))])]),
+                RVal::obj(vec![("a", RVal::arr(vec![RVal::u(1), RVal::f(1.5)])), ("b", RVal::Null)]),
+                RVal::u(1),
+                RVal::s("a"),
+                RVal::arr(vec![]),
+                RVal::obj(vec![]),
+                RVal::arr(vec![RVal::arr(vec![RVal::u(1)]), RVal::arr(vec![RVal::Null, RVal::s("a"), RVal::Bool(true)])]),
+                RVal::obj(vec![("a", RVal::obj(vec![("a", RVal::u(1)), ("", RVal::s(""))])), ("1", RVal::f(1.5))]),
+                RVal::Null,
+                RVal::Bool(true),
+            ]
+            .into_iter()
+            .map(|x| { let b = enc(&x); (x, b) })
+            .collect(),
+        );
+        sp.push(Space::new("token-soup paths: every token string jsonb's parser accepts, evaluated as parsed x 10 documents", total.div_ceil(256), move |blk, acc| {
+            for idx in (blk * 256)..((blk + 1) * 256).min(total) {
+                let mut i = idx;
+                let mut len = 0;
+                let mut c = 1;
+                while i >= c {
+                    i -= c;
+                    c *= nt;
+                    len += 1;
+                }
+                let mut text: Vec<u8> = vec![];
+                for _ in 0..len {
+                    text.extend_from_slice(toks[(i % nt) as usize]);
+                    i /= nt;
+                }
+                // whether it is accepted, and as what, is C09's question
+                if !matches!(guard(|| jsonb::jsonpath::parse_json_path(&text).is_ok()), Ok(true)) {
+                    continue;
+                }
+                let st: &'static [u8] = Box::leak(text.into_boxed_slice());
+                let Ok(ip) = jsonb::jsonpath::parse_json_path(st) else { continue };
+                let g = from_impl_path(&ip);
+                acc.nontrivial += 1;
+                for (d, b) in docs.iter() {
+                    judge(&g, &ip, d, b, acc);
+                }
+            }
+        }));
+    }
     {
         let paths = mk(crate::checks::scale::path_menu());
         let sd = crate::checks::scale::docs().clone();
